@@ -13,6 +13,16 @@ CHECKS = {
              'power-of-two and variable-interval variants at full 64-bit width; number of parts bounded by the unwinding (checked by unwinding assertions). '
              'Assumes offset+length+interval does not wrap 2^64.  Trusted: clang IR generation, ir2c (validated per run against the g++ build on 300 vectors), CBMC.',
         technique=TECH, design_ref='DESIGN.md §3 C15'),
+    'C20': dict(
+        text='For every path string up to the stated length over {/ . a NUL}, for each of the 30 one-path and 2 two-path operations of SubFileSystem, '
+             'the solver shows that whatever reaches the underlying filesystem is either a null path (rejected) or exactly base + path with a lexical '
+             'resolution that never climbs above the base (reference resolver in the harness), and conversely that every path whose prefixes stay inside '
+             'the base is forwarded; plus the PATH_MAX length check for every base length.  The input space is a small alphabet with rare interesting '
+             'strings ("a/../..", "..." , trailing slashes), which is what bounded symbolic execution covers completely.',
+        note='Bounds: path length <= 5 (quick) / 8 (thorough); two-path operations with lengths <= 3/4; PATH_MAX shrunk to 32 in the harness build (platform constant; '
+             'comparison logic unchanged).  Logging macros have empty bodies; __dynamic_cast of the one cast in init() is a harness stand-in.  Symlinks in the underlay are outside '
+             'the property (lexical resolution).  Found and fixed (d53df53): legal paths such as "a/.." were refused.',
+        technique=TECH, design_ref='DESIGN.md §3 C20'),
 }
 
 NOT_APPLICABLE = {p: 'check under construction in this session (see DESIGN.md §3 for the plan); not claimed until its harness passes on the unchanged tree'
